@@ -45,8 +45,31 @@ type simHandler struct {
 func NewSimInformer(kind string) *SimInformer {
 	return &SimInformer{
 		kind:    kind,
-		indexer: cache.NewIndexer(cache.MetaNamespaceKeyFunc, cache.Indexers{cache.NamespaceIndex: cache.MetaNamespaceIndexFunc}),
+		indexer: &sortedIndexer{cache.NewIndexer(cache.MetaNamespaceKeyFunc, cache.Indexers{cache.NamespaceIndex: cache.MetaNamespaceIndexFunc})},
 	}
+}
+
+// sortedIndexer returns list results in key order. client-go returns them in Go map
+// order; any order is legal, and a fixed one makes every run of a history the same run
+// (the jobconfigcontroller writes the list order into status.activeJobs).
+type sortedIndexer struct{ cache.Indexer }
+
+func sortObjs(l []interface{}) []interface{} {
+	sort.SliceStable(l, func(i, j int) bool {
+		a, _ := cache.MetaNamespaceKeyFunc(l[i])
+		b, _ := cache.MetaNamespaceKeyFunc(l[j])
+		return a < b
+	})
+	return l
+}
+func (s *sortedIndexer) List() []interface{} { return sortObjs(s.Indexer.List()) }
+func (s *sortedIndexer) Index(name string, obj interface{}) ([]interface{}, error) {
+	l, err := s.Indexer.Index(name, obj)
+	return sortObjs(l), err
+}
+func (s *sortedIndexer) ByIndex(name, v string) ([]interface{}, error) {
+	l, err := s.Indexer.ByIndex(name, v)
+	return sortObjs(l), err
 }
 
 // --- cache.SharedIndexInformer ---
